@@ -18,11 +18,14 @@ func runC08(c *Check, tier string) {
 	c.NotDec = "real S3/GCS semantics, two-machine histories, content equality, hangs inside the SDKs."
 	w := findWrapper(c, "R08a")
 	ruleR08a(c, w)
-	ruleR08b(c, w)
+	ruleR08b(c, w, "R08b")
 	ruleR08c(c, w)
 	ruleR08d(c, w)
 	c.Rule("R08e", "no dangling references: the directory handler uploads exactly the files its tree names, then the tree, then returns the record (same obligations as R01d for the handler)", 3)
 	dirWriteOrder(c, "R08e")
+	// a digest is remembered as present only after it really is (otherwise a parallel writer of the same
+	// blob reports success while the upload it relies on can still fail: dangling reference in the remote)
+	ruleR07e(c, "R08f")
 }
 
 type wrapperInfo struct {
@@ -246,8 +249,8 @@ func ruleR08a(c *Check, w *wrapperInfo) {
 	c.Require(okCollect, "R08a", "nil-only-without-errors/"+fname, "`return nil` is dominated by `len(collected errors) == 0` where the errors are received from the goroutines' channel", "Set can return nil although an error was received from one of the tier writers (or the channel is never drained)", c.P.Pos(fn.Pos()))
 }
 
-func ruleR08b(c *Check, w *wrapperInfo) {
-	c.Rule("R08b", "in the wrapper's Get: the remote is asked only after the local read failed; its error is returned; the remote content is what is written to the local tier; the returned reader is a local read (never the remote stream)", 3)
+func ruleR08b(c *Check, w *wrapperInfo, rule string) {
+	c.Rule(rule, "in the wrapper's Get: the remote is asked only after the local read failed; its error is returned; the remote content is what is written to the local tier; the returned reader is a local read (never the remote stream)", 3)
 	if w == nil {
 		return
 	}
@@ -274,7 +277,7 @@ func ruleR08b(c *Check, w *wrapperInfo) {
 		fsSet = append(fsSet, fsS...)
 	}
 	if len(fsGet) == 0 || len(remGet) == 0 || len(fsSet) == 0 {
-		c.Bad("R08b", "read-through/"+fname, fmt.Sprintf("Get does not implement read-through (local reads: %d, remote reads: %d, local fills: %d)", len(fsGet), len(remGet), len(fsSet)), c.P.Pos(fn.Pos()))
+		c.Bad(rule, "read-through/"+fname, fmt.Sprintf("Get does not implement read-through (local reads: %d, remote reads: %d, local fills: %d)", len(fsGet), len(remGet), len(fsSet)), c.P.Pos(fn.Pos()))
 		return
 	}
 	// fill content is the remote stream
@@ -306,7 +309,7 @@ func ruleR08b(c *Check, w *wrapperInfo) {
 			}
 		}
 	}
-	c.Require(okFill, "R08b", "fill-local-with-remote/"+fname, "the local tier is filled with exactly the stream returned by a successful remote Get", "the local tier is filled with something other than the successfully fetched remote content", c.P.InstrPos(fsSet[0]))
+	c.Require(okFill, rule, "fill-local-with-remote/"+fname, "the local tier is filled with exactly the stream returned by a successful remote Get", "the local tier is filled with something other than the successfully fetched remote content", c.P.InstrPos(fsSet[0]))
 	// returned reader comes from a local Get
 	okRet := true
 	for _, r := range engine.Returns(fn) {
@@ -326,8 +329,8 @@ func ruleR08b(c *Check, w *wrapperInfo) {
 			}
 		}
 	}
-	c.Require(okRet, "R08b", "return-local-reader/"+fname, "every reader handed out comes from a read of the local tier", "Get hands out a reader that is not a read of the local tier (a remote stream would bypass the local fill and could be partially consumed)", c.P.Pos(fn.Pos()))
-	requireNoDroppedErrors(c, "R08b", regionFns, nil)
+	c.Require(okRet, rule, "return-local-reader/"+fname, "every reader handed out comes from a read of the local tier", "Get hands out a reader that is not a read of the local tier (a remote stream would bypass the local fill and could be partially consumed)", c.P.Pos(fn.Pos()))
+	requireNoDroppedErrors(c, rule, regionFns, nil)
 }
 
 func returnsCallResult(r *ssa.Return, calls []ssa.CallInstruction) bool {
